@@ -40,6 +40,36 @@ func (where Where) Build(builder Builder) {
 	buildExprs(where.Exprs, builder, AndWithSpace)
 }
 
+// containsAndOr reports whether a raw SQL condition contains an AND / OR keyword,
+// in any letter case, delimited by whitespace (space, tab, newline) or parentheses,
+// so that it has to be parenthesised when combined with other conditions
+func containsAndOr(sql string) bool {
+	isDelimiter := func(c byte) bool {
+		return c == ' ' || c == '\t' || c == '\n' || c == '\r' || c == '(' || c == ')'
+	}
+
+	for i := 1; i < len(sql); i++ {
+		var size int
+		switch sql[i] {
+		case 'A', 'a':
+			size = 3
+		case 'O', 'o':
+			size = 2
+		default:
+			continue
+		}
+
+		if i+size >= len(sql) || !isDelimiter(sql[i-1]) || !isDelimiter(sql[i+size]) {
+			continue
+		}
+
+		if keyword := sql[i : i+size]; strings.EqualFold(keyword, "AND") || strings.EqualFold(keyword, "OR") {
+			return true
+		}
+	}
+	return false
+}
+
 func buildExprs(exprs []Expression, builder Builder, joinCond string) {
 	wrapInParentheses := false
 
@@ -57,23 +87,19 @@ func buildExprs(exprs []Expression, builder Builder, joinCond string) {
 			case OrConditions:
 				if len(v.Exprs) == 1 {
 					if e, ok := v.Exprs[0].(Expr); ok {
-						sql := strings.ToUpper(e.SQL)
-						wrapInParentheses = strings.Contains(sql, AndWithSpace) || strings.Contains(sql, OrWithSpace)
+						wrapInParentheses = containsAndOr(e.SQL)
 					}
 				}
 			case AndConditions:
 				if len(v.Exprs) == 1 {
 					if e, ok := v.Exprs[0].(Expr); ok {
-						sql := strings.ToUpper(e.SQL)
-						wrapInParentheses = strings.Contains(sql, AndWithSpace) || strings.Contains(sql, OrWithSpace)
+						wrapInParentheses = containsAndOr(e.SQL)
 					}
 				}
 			case Expr:
-				sql := strings.ToUpper(v.SQL)
-				wrapInParentheses = strings.Contains(sql, AndWithSpace) || strings.Contains(sql, OrWithSpace)
+				wrapInParentheses = containsAndOr(v.SQL)
 			case NamedExpr:
-				sql := strings.ToUpper(v.SQL)
-				wrapInParentheses = strings.Contains(sql, AndWithSpace) || strings.Contains(sql, OrWithSpace)
+				wrapInParentheses = containsAndOr(v.SQL)
 			}
 		}
 
@@ -190,8 +216,7 @@ func (not NotConditions) Build(builder Builder) {
 				builder.WriteString("NOT ")
 				e, wrapInParentheses := c.(Expr)
 				if wrapInParentheses {
-					sql := strings.ToUpper(e.SQL)
-					if wrapInParentheses = strings.Contains(sql, AndWithSpace) || strings.Contains(sql, OrWithSpace); wrapInParentheses {
+					if wrapInParentheses = containsAndOr(e.SQL); wrapInParentheses {
 						builder.WriteByte('(')
 					}
 				}
@@ -225,8 +250,7 @@ func (not NotConditions) Build(builder Builder) {
 
 			e, wrapInParentheses := c.(Expr)
 			if wrapInParentheses {
-				sql := strings.ToUpper(e.SQL)
-				if wrapInParentheses = strings.Contains(sql, AndWithSpace) || strings.Contains(sql, OrWithSpace); wrapInParentheses {
+				if wrapInParentheses = containsAndOr(e.SQL); wrapInParentheses {
 					builder.WriteByte('(')
 				}
 			}
